@@ -347,18 +347,17 @@ func validateRolloutSpecCanarySteps(c *validateContext, steps []appsv1beta1.Cana
 		}
 	}
 
-	for i := 1; i < stepCount; i++ {
-		prev := &steps[i-1]
+	// numbers and percentages are not comparable with each other: compare every step
+	// with the closest earlier step of the same type, not only with its direct neighbour
+	lastReplicas := map[bool]int{}
+	for i := range steps {
 		curr := &steps[i]
-		// if they are comparable, then compare them
-		if IsPercentageCanaryReplicasType(prev.Replicas) != IsPercentageCanaryReplicasType(curr.Replicas) {
-			continue
-		}
-		prevCanaryReplicas, _ := intstr.GetScaledValueFromIntOrPercent(prev.Replicas, 100, true)
+		isPercentage := IsPercentageCanaryReplicasType(curr.Replicas)
 		currCanaryReplicas, _ := intstr.GetScaledValueFromIntOrPercent(curr.Replicas, 100, true)
-		if currCanaryReplicas < prevCanaryReplicas {
+		if prevCanaryReplicas, ok := lastReplicas[isPercentage]; ok && currCanaryReplicas < prevCanaryReplicas {
 			return field.ErrorList{field.Invalid(fldPath.Child("CanaryReplicas"), steps, `Steps.CanaryReplicas must be a non decreasing sequence`)}
 		}
+		lastReplicas[isPercentage] = currCanaryReplicas
 	}
 
 	return nil
